@@ -1292,6 +1292,15 @@ class Optimizer(object):
                         transformed_bounds[:, 1],
                     )
 
+                # The optimizer of the acquisition function does not know about the points
+                # already sampled: when it ends on one of them fall back on the best of the
+                # sampled candidates (which are filtered from duplicates).
+                if self.filter_duplicated and not do_only_sampling:
+                    x = self.space.inverse_transform(np.reshape(next_x, (1, -1)))[0]
+                    x = self.space.deactivate_inactive_dimensions(x)
+                    if x in self.sampled:
+                        next_x = Xsample_transformed[np.argmin(values)]
+
                 self.next_xs_.append(next_x)
 
             if "gp_hedge" in self.acq_func:
